@@ -310,6 +310,11 @@ static std::string first_fn_of(const std::string &sym_detail, const char *key)
   return o;
 }
 
+#if defined(RKSIM_NO_ARENA) && !defined(RKSIM_ASAN_LANE)
+namespace rksim {
+extern volatile int g_emergency_heap;
+}
+#endif
 static const RunCfg *g_cur_cfg = nullptr;
 static uint64_t g_cur_index = 0;
 
@@ -573,6 +578,9 @@ static void report_fatal_as_violation(const char *sig_prefix, const char *what, 
   static volatile int once = 0;
   if (once++)
     _exit(71);
+#if defined(RKSIM_NO_ARENA) && !defined(RKSIM_ASAN_LANE)
+  g_emergency_heap = 1;  // the real heap may be what the code under test has just corrupted
+#endif
   RunOut out;
   out.result = RES_VIOLATION;
   char fn[700] = "?";
@@ -609,10 +617,12 @@ static void report_fatal_as_violation(const char *sig_prefix, const char *what, 
   char pth[512];
   snprintf(pth, sizeof pth, "%s/fatal_p%d_i%lu.replay.json", getenv("RKSIM_OUTDIR") ? getenv("RKSIM_OUTDIR") : "/verif/build/scratch", (int)getpid(),
            (unsigned long)g_cur_index);
-  FILE *f2 = fopen(pth, "w");
-  if (f2) {
-    fwrite(rj.data(), 1, rj.size(), f2);
-    fclose(f2);
+  {
+    int fd2 = open(pth, O_WRONLY | O_CREAT | O_TRUNC, 0644);  // no stdio: it would allocate
+    if (fd2 >= 0) {
+      write_all(fd2, rj.data(), rj.size());
+      close(fd2);
+    }
   }
   if (g_child_fd >= 0) {
     MsgRun m;
